@@ -20,7 +20,7 @@ PROPS = ["Bee2V/C05/Props.lean", "Bee2V/C05/PropsAdd.lean", "Bee2V/C05/PropsMul.
          "Bee2V/C05/PropsDiv.lean", "Bee2V/C05/PropsGcd.lean", "Bee2V/C05/PropsAlias.lean",
          "Bee2V/C05/PropsPp.lean", "Bee2V/C05/PropsRed.lean", "Bee2V/C05/PropsEtc.lean",
          "Bee2V/C05/PropsPpMul.lean", "Bee2V/C05/PropsPpRed.lean", "Bee2V/C05/PropsMisc.lean", "Bee2V/C05/PropsGf2.lean",
-         "Bee2V/C05/PropsPpDiv.lean", "Bee2V/C05/PropsZm.lean"]
+         "Bee2V/C05/PropsPpDiv.lean", "Bee2V/C05/PropsZm.lean", "Bee2V/C05/PropsGf2Ops.lean"]
 
 # ----------------------------------------------------------------------------- helpers
 
